@@ -44,14 +44,17 @@ ASSUMPTIONS = {
  'C01': _COMMON + ['the geometric half (signed areas, winding numbers) is NOT proved here: it is checked per run by the exact-rational oracle on the '
                    'implementation outputs (area sum, orientation, coverage of sampled points); only the structural facts are theorems'],
  'C08': _COMMON + ['Conf_struct (neighbour symmetry, validity, counter) is proved preserved only for the operations listed in Properties/C08_mesh.v; the '
-                   'geometric clauses (same region, same outline, orientation) are checked per step by the exact-rational oracle'],
+                   'geometric clauses (same region, same outline, orientation) are checked per step by the exact-rational oracle; Properties/C08_region.v proves '
+                   'them on the real-number instance for split_triangle (unconditionally), and for flip_diagonal / split_edge / restore_delaunay / add_point / '
+                   'histories under the hypotheses that the neighbour holds the shared edge exactly (flip_shared; not proved to be an invariant) and that '
+                   'a split_edge point lies exactly on the edge (the crate locates points with a 100-eps tolerance); refine is not covered'],
  'C09': _COMMON + ['wall-clock time and stack depth are observed by the harness, not modelled; success for well-conditioned polygons is validated on the '
                    'generated stream, not proved (needs the two-ears theorem)'],
  'C18': _COMMON + ['the theorem is about the cached aspect_ratio and the cached Heron area of each slot; that these agree with circumradius / shortest edge '
                    'is re-measured exactly (squared, rational) by the oracle on every returned triangle'],
 }
 THEOREMS = {
- 'C01': ['C01_ntriangles_partial', 'C01_vertices_from_loop', 'C01_ntriangles_eq_refuted', 'C01_orientation_refuted',
+ 'C01': ['C01_ntriangles_partial', 'C01_vertices_from_loop', 'C01_ntriangles_w2_now_exact', 'C01_orientation_w1_now_ok',
          # geometric half (Properties/C01_tiling.v)
          'C01_def_sanitize_unchanged', 'C01_def_stable_run', 'C01_def_outline_of', 'C01_def_projections',
          'C01_trace_erasure', 'C01_trace_exists', 'C01_ear_decomposition', 'C01_clip_run_general', 'C01_clip_run_unchanged', 'C01_identities_general', 'C01_ntriangles_stable', 'C01_ear_decomp2_to_theory',
@@ -59,10 +62,28 @@ THEOREMS = {
          'C01_area_identity', 'C01_area_identity_3d', 'C01_winding_identity', 'C01_winding_index',
          'C01_tiling_count', 'C01_tiling_outside', 'C01_tiling_no_overlap', 'C01_tiling_cover', 'C01_tile_exactly',
          'C01_area_sum', 'C01_area_positive', 'C01_positive_normals_suffice', 'C01_tiling_count_via_theory',
-         'C01_negative_ear_breaks_count'],
+         'C01_negative_ear_breaks_count',
+         # the ear test of fix 4bb2ed8: the orientation of the ears is proved
+         'C01_def_ear_ok', 'C01_ears_checked', 'C01_clip_run_checked', 'C01_ears_convex', 'C01_ear_blocked_false',
+         'C01_tri_test_point_outside', 'C01_def_frame_normal', 'C01_frame_normal_eq', 'C01_ear_convex_orient', 'C01_ears_positive',
+         'C01_tiling_count_proved', 'C01_tile_exactly_proved', 'C01_area_sum_proved', 'C01_area_positive_proved', 'C01_sanitize_can_change'],
  'C08': ['C08_initial_invariants', 'C08_wf_history', 'C08_counter_push', 'C08_counter_invalidate_live', 'C08_counter_mark_as_neighbours',
          'C08_counter_split_triangle', 'C08_counter_flip_diagonal', 'C08_counter_restore_delaunay', 'C08_mark_reciprocal',
-         'C08_split_edge_half_update_refuted', 'C08_split_edge_w4_now_atomic'],
+         'C08_split_edge_half_update_refuted', 'C08_split_edge_w4_now_atomic',
+         # Properties/C08_region.v: atomicity, live-triangle multiset, region (area / coverage / orientation)
+         'C08_push_after_check_succeeds', 'C08_split_triangle_atomic', 'C08_split_triangle_err_unchanged',
+         'C08_flip_atomic', 'C08_flip_err_unchanged', 'C08_split_edge_atomic',
+         'C08_split_edge_err_unchanged', 'C08_split_triangle_struct', 'C08_split_edge_struct',
+         'C08_flip_struct_partial', 'C08_restore_delaunay_sound', 'C08_add_point_err_unchanged',
+         'C08_live_mark_as_neighbours', 'C08_live_constrain', 'C08_live_set_neighbour',
+         'C08_live_invalidate', 'C08_live_push', 'C08_live_split_triangle',
+         'C08_live_flip_diagonal', 'C08_live_split_edge', 'C08_cover_counts_inside',
+         'C08_region_split_triangle', 'C08_region_flip_diagonal', 'C08_region_split_edge_area',
+         'C08_region_split_edge_cover', 'C08_split_edge_hypothesis_of_nondeg', 'C08_nondeg_split_triangle',
+         'C08_nondeg_flip_diagonal', 'C08_region_add_point_area', 'C08_region_add_point_cover',
+         'C08_region_restore_delaunay_partial', 'C08_region_history_area_partial', 'C08_region_history_cover_partial',
+         'C08_orientation_split_triangle', 'C08_orientation_split_edge', 'C08_orientation_flip_diagonal',
+         'C08_is_convex_gives_flip_convex', 'C08_located_on_edge_is_not_exact'],
  'C09': ['C09_from_polygon_bounded', 'C09_restore_delaunay_bounded', 'C09_edge_add_no_panic', 'C09_panic_sites_flip_diagonal',
          'C09_panic_sites_split_edge', 'C09_panic_sites_split_triangle', 'C09_panic_sites_restore_delaunay', 'C09_panic_sites_add_point',
          'C09_panic_sites_refine', 'C09_wf_push', 'C09_wf_invalidate', 'C09_wf_mark_as_neighbours', 'C09_wf_flip_diagonal',
